@@ -2125,7 +2125,12 @@ def run_c17(ctx):
                 t0 = next(iter(M["cf"]["cv"]))
                 if M["cf"]["cv"][t0]:
                     M["cf"]["cv"][t0][0][0] = Fr(2 ** 25 + 1)
+        if rng.random() < 0.3:
+            # a field with MORE components than any space dimension (five mass fractions per point): nothing to pad, left as it is
+            M["pf"]["w5"] = [[Fr(rng.randint(-40, 40), 8) for _ in range(5)] for _ in M["pts"]]
         P = pad_mesh(M)
+        if "w5" in M["pf"]:
+            P["pf"]["w5"] = [list(r) for r in M["pf"]["w5"]]
         if rng.random() < 0.25:
             # the low-dimensional data set stores its vector / tensor fields with three components already (as VTK files do):
             # only the coordinates need matching, the fields must be left as they are
